@@ -110,6 +110,25 @@ def mc(module, cfg, pid, tag=None, workers=8, expect_violation=None, timeout=150
     return s
 
 
+def apalache(module, init, inv, length, pid, cinit='ConstInit', expect_error=False, timeout=900):
+    """One Apalache obligation (symbolic, unbounded integers): from every state satisfying `init`, `inv` holds for `length` steps.
+    Raises ToolError unless the outcome is the expected one."""
+    d = workdir(pid) + '/apalache'
+    os.makedirs(d, exist_ok=True)
+    shutil.copy(f'{SPEC}/{module}.tla', d)
+    cmd = ['apalache-mc', 'check', f'--cinit={cinit}', f'--init={init}', f'--inv={inv}', f'--length={length}', f'{module}.tla']
+    rc, out = sh(cmd, cwd=d, timeout=timeout)
+    ok = 'The outcome is: NoError' in out
+    err = 'The outcome is: Error' in out
+    shutil.rmtree(d + '/_apalache-out', ignore_errors=True)
+    if expect_error:
+        if not err:
+            raise ToolError(f'apalache {module} {init}=>{inv}: expected a counterexample (negative control), got: {out[-300:]}')
+    elif not ok:
+        raise ToolError(f'apalache {module} {init}=>{inv} (length {length}) failed: {out[-400:]}')
+    return {'cmd': ' '.join(cmd), 'outcome': 'Error (expected: negative control)' if expect_error else 'NoError'}
+
+
 def gen(module, cfg, pid, tag=None, workers=1, marker='GEN', timeout=1500, extra=None):
     """Run a generator configuration; collect the JSON payloads printed as <<"GEN", "json">>."""
     tag = tag or cfg.replace('.cfg', '')
